@@ -874,9 +874,8 @@ def main():
     cold_checked = 0
     if hists:
         hkey = {tuple(s['hist']): real_key(s['res']) for s in states.values()}
-        for i in range(ncold):
-            h = hists[(ck.seed * 7 + i * max(1, len(hists) // ncold)) % len(hists)]
-            steps, intro_same = cold_history(h)
+        picks = [hists[(ck.seed * 7 + i * max(1, len(hists) // ncold)) % len(hists)] for i in range(ncold)]
+        for h, (steps, intro_same) in zip(picks, pmap(cold_history, picks, jobs=jobs, init=worker_init)):
             if len(steps) != len(h) + 1 or steps[-1][2] != hkey[tuple(h)]:
                 ck.internal('cold re-execution of %r differs from the fork runner' % (h,))
             if intro_same is not True:
